@@ -113,6 +113,7 @@ class Pair:
         self.space = space
         self.model = {}  # key -> pandas frame owned by the model
         self.auto_issued = set()  # present keys whose name the space itself handed out for key=None
+        self.last_cols = {}  # key -> column names when it was last written (for pipelines over removed entries)
 
 
 class State:
@@ -279,6 +280,7 @@ def _write(pair: Pair, st_: State, opname, key, ao, call, new_frame, where, sig)
             dict(sig, kind="return"),
         )
     model[name] = new_frame
+    pair.last_cols[name] = [str(c) for c in new_frame.columns]
     st_.feat(f"{opname}:ok")
     return None
 
@@ -305,8 +307,30 @@ def _apply_pair(pair: Pair, st_: State, op) -> "Failure | None":
         _, pipe, key, ao = op
         srcs = pipe_sources(pipe)
         if any(s not in model for s in srcs):
-            st_.feat("execute:skipped_missing_source")
-            return None
+            # a pipeline built on the description of an entry that has been removed since: execute must fail and, like
+            # every failed operation, leave keys() / retrieve() exactly as they were (check_state runs right after)
+            if not all(s in model or s in pair.last_cols for s in srcs):
+                st_.feat("execute:skipped_missing_source")
+                return None
+            from data_algebra.data_ops import TableDescription
+
+            try:
+                ops_s = build_pipe(pipe, lambda k: sp.describe(k) if k in model else TableDescription(table_name=k, column_names=pair.last_cols[k]))
+            except Exception:
+                st_.feat("execute:skipped_missing_source")
+                return None
+            try:
+                sp.execute(ops_s, key=key, allow_overwrite=bool(ao))
+            except Exception:
+                st_.feat("execute:failed_on_removed_source")
+                st_.marks.add("failed_execute")
+                if key is not None and key in model:
+                    st_.marks.add("failed_execute_on_existing_target")
+                return None
+            return Failure(
+                f"[{pair.name}] {where} reads a removed entry and did not raise",
+                dict(sig, kind="execute_on_removed_source_succeeded"),
+            )
         ops_m = build_pipe(pipe, lambda k: describe_table(model[k], table_name=k))
         expected = ops_m.eval({k: model[k] for k in srcs})  # trusted: Pandas executor on the model's frames
         if too_big(expected):
@@ -478,7 +502,7 @@ class DataSpaceMachine(MachineMixin, RuleBasedStateMachine):
         self.history.append(op)
         f = apply_op(self.s, op)
         self.feats.update(self.s.feats)
-        if self.s.marks & {"overwrite", "reuse_after_remove", "illegal_rejected", "reads_overwritten"}:
+        if self.s.marks & {"overwrite", "reuse_after_remove", "illegal_rejected", "reads_overwritten", "failed_execute"}:
             self.nontrivial = True
         if f is not None:
             self.fail(f)
@@ -498,6 +522,14 @@ class DataSpaceMachine(MachineMixin, RuleBasedStateMachine):
     # -- rules (one weighted rule: writes must outnumber removals or the store is empty most of the time)
     def _draw_execute(self, data, ao):
         have = self.s.keys_now()
+        gone = sorted(k for k in self.s.removed if k not in have)
+        if gone and data.draw(st.integers(0, 4), label="stale_source") == 0:
+            # a pipeline over an entry removed earlier: must fail without touching the store
+            src = data.draw(st.sampled_from(gone), label="src")
+            kind = data.draw(st.sampled_from(["extend", "select", "cols"]), label="kind")
+            pipe = {"extend": ["extend", src, "z", 1], "select": ["select", src, 0], "cols": ["cols", src]}[kind]
+            key = data.draw(st.sampled_from([None] + have + have), label="key") if have else None
+            return ["execute", pipe, key, ao]
         src = data.draw(st.sampled_from(have), label="src")
         kind = data.draw(st.sampled_from(["extend", "select", "join", "sum", "cols"]), label="kind")
         if kind == "extend":
